@@ -261,7 +261,7 @@ def run_c11(ctx):
 PLANS["C11"] = dict(
     run=run_c11, signature=sig_default,
     technique="TLA+ bag model of the quadtree with relational query specs; TLC checks the node-tree design refines it over all short histories, generates every short history for replay into the real tree, and validates the recorded traces (contents, node cells, query results)",
-    level_text="TLC explores every history of add / remove-by-point / remove-by-identity up to length 5 (quick) / 7 (thorough) over a 6-point alphabet (duplicate, midline, bound-corner, outside points) and checks in every state that the node-tree transcription (midline rule, pull-up removal, pruned nearest-child-first search, array max-heap) refines the bag model for a family of 16 query points x k in 1..3 x 3 limits x 5 boxes x 3 filters. TLC then emits every history of length 4 (5) with predicted results; the harness replays them into a real quadtree.Quadtree and after each step records contents, the node tree (hook VerifWalk) and ~130 query results, plus seeded histories of 200-500 operations over 16 points; TLC judges every event against the bag model. Seeded histories run in three coordinate maps: integers, integers / 1024 (a unit-square tree: distance limits below 1), and positions in an increasing table of arbitrary floats (non-dyadic bounds, cell midlines written either way, one-ulp neighbours) for the order-based operations (add, remove, bound search incl. degenerate boxes).",
+    level_text="TLC explores every history of add / remove-by-point / remove-by-identity up to length 5 (quick) / 7 (thorough) over a 6-point alphabet (duplicate, midline, bound-corner, outside points) and checks in every state that the node-tree transcription (midline rule, pull-up removal, pruned nearest-child-first search, array max-heap) refines the bag model for a family of 16 query points x k in 1..3 x 3 limits x 5 boxes x 3 filters. TLC then emits every history of length 4 (5) with predicted results; the harness replays them into a real quadtree.Quadtree and after each step records contents, the node tree (hook VerifWalk) and ~130 query results, plus seeded histories of 200-500 operations over 16 points; TLC judges every event against the bag model. Seeded histories run in three coordinate maps: integers, integers / 1024 (a unit-square tree: distance limits below 1), and positions in an increasing table of arbitrary floats (non-dyadic bounds, cell midlines written either way, one-ulp neighbours) for the order-based operations (add, remove, bound search incl. degenerate boxes). One distance limit per history equals the exact distance between a query point and a stored point (strictly-within boundary).",
     level_note="Integer coordinates in power-of-two bounds (all distances and midlines exact); ties between equidistant pointers may be broken either way; KNearest with k <= 0 is outside the quantifier and not exercised. Trusted: TLC, Json module, the VerifWalk hook (read-only), int conversions in the harness.",
     rule="one event = one operation on a real tree with the observed contents, node tree and all query results after it; every event is non-trivial (nt=1); distinct = distinct event text",
     assumptions=["pointer identity is modelled by a unique integer id per added pointer",
@@ -427,7 +427,7 @@ def sig_c20(ev):
 PLANS["C20"] = dict(
     run=run_c20, signature=sig_c20,
     technique="TLA+ dispatch table and collection laws over result values; TLC emits the bounded shape set, the harness calls every generic entry point, its kind-specific counterpart and the members, and TLC validates totality, agreement, the collection law and read-only-ness per event",
-    level_text="For every shape of the TLC-generated bounded set (nine kinds + nil interface, nil/empty slices, zero-ring polygons in multipolygons, zero-vertex rings in polygons, one-vertex lines, collections nested to depth 2) and seeded rectilinear degenerate-rich shapes, each of 22 generic entry points (Clone, Round, planar Area/CentroidArea/Length/DistanceFrom(WithIndex), geo Area/Length/LengthHaversine, clip, smartclip, project, three simplifiers, tilecover, wkb/ewkb/wkt Marshal, geojson geometry and feature) is called under recover; TLC requires: no panic, result = the kind-specific function's result, a collection's result = the law of the table applied to its members' results (map / sum / min / filter-unwrap / union), and the argument unchanged for the read-only entry points. Read-only entry points receive a copy whose every slice has spare capacity filled with sentinels: the argument and the sentinels must be untouched (clip.Geometry on a MultiPoint counts as read-only, as documented). Seeded multi-part geometries pair a zig-zag part (a simplifier keeps everything) with a straight part full of redundant vertices: parts must not influence each other.",
+    level_text="For every shape of the TLC-generated bounded set (nine kinds + nil interface, nil/empty slices, zero-ring polygons in multipolygons, zero-vertex rings in polygons, one-vertex lines, collections nested to depth 2) and seeded rectilinear degenerate-rich shapes, each of 22 generic entry points (Clone, Round, planar Area/CentroidArea/Length/DistanceFrom(WithIndex), geo Area/Length/LengthHaversine, clip, smartclip, project, three simplifiers, tilecover, wkb/ewkb/wkt Marshal, geojson geometry and feature) is called under recover; TLC requires: no panic, result = the kind-specific function's result, a collection's result = the law of the table applied to its members' results (map / sum / min / filter-unwrap / union), and the argument unchanged for the read-only entry points. Read-only entry points receive a copy whose every slice has spare capacity filled with sentinels: the argument and the sentinels must be untouched (clip.Geometry on a MultiPoint counts as read-only, as documented). Seeded multi-part geometries pair a zig-zag part (a simplifier keeps everything) with a straight part full of redundant vertices: parts must not influence each other. Seeded collections also hold nil members (skipped by every entry point).",
     level_note="The 'programs' half of the quantifier (every type switch in the source names all nine kinds) is a static property of source text and is not decided here; a switch that misses a kind is seen only through an entry point in the table. Float-valued results that are not exact on the integer lattice (geodesic measures, diagonal lengths) are compared for generic = typed by bit pattern but take no part in the arithmetic laws. Trusted: TLC, Json module, sha1 for byte/text results.",
     rule="one event = one entry point applied to one shape (generic result, typed result, member results, argument after the call); non-trivial = non-nil shape; distinct = distinct event text",
     assumptions=["panics are recovered and recorded with the innermost orb function on the stack as the site"],
@@ -474,7 +474,7 @@ def run_c14(ctx):
 PLANS["C14"] = dict(
     run=run_c14, signature=sig_default,
     technique="TLA+ exact Must/May tile sets and sample-point polygon predicate in tile-space lattice units, MergeUp as a state machine with nondeterministic map order checked against MaxMerge; traces of the real tilecover functions validated by TLC",
-    level_text="TLC explores the MergeUp loop with every possible map iteration order for all 65536 zoom-2 tile sets x min in 0..2 (thorough; 384 structured sets quick) and checks result = MaxMerge, disjointness, equal area, no complete sibling quad left and no tile shallower than min. For real covers the harness places lattice paths and star-shaped polygons (with holes) in tile space at zooms 3..22, inverts them to lon/lat, checks with maptile.Fraction that the code sees the lattice point within 1e-6 tile, and records the cover; TLC requires Must <= cover <= May for lines (exact segment/rectangle tests with a 1/64-tile margin, so either choice at an exact corner crossing is accepted), sample-point and boundary tiles in the cover and the cover inside the bounding box for polygons, the tile itself for points, the union for collections, and MergeUp = MaxMerge on every repetition for tile sets at zoom 2 and 4. Also: polygons of up to 8x8 tiles with a small hole somewhere inside (a hole within one tile row), vertices repeated in a row incl. a doubled closing vertex, windows across the equator (the one tile-row edge with an exact latitude: vertices exactly on a row edge), windows starting at tile (0,0) and whole-world windows at zooms 0..2.",
+    level_text="TLC explores the MergeUp loop with every possible map iteration order for all 65536 zoom-2 tile sets x min in 0..2 (thorough; 384 structured sets quick) and checks result = MaxMerge, disjointness, equal area, no complete sibling quad left and no tile shallower than min. For real covers the harness places lattice paths and star-shaped polygons (with holes) in tile space at zooms 3..22, inverts them to lon/lat, checks with maptile.Fraction that the code sees the lattice point within 1e-6 tile, and records the cover; TLC requires Must <= cover <= May for lines (exact segment/rectangle tests with a 1/64-tile margin, so either choice at an exact corner crossing is accepted), sample-point and boundary tiles in the cover and the cover inside the bounding box for polygons, the tile itself for points, the union for collections, and MergeUp = MaxMerge on every repetition for tile sets at zoom 2 and 4. Also: polygons of up to 8x8 tiles with a small hole somewhere inside (a hole within one tile row), vertices repeated in a row incl. a doubled closing vertex, windows across the equator (the one tile-row edge with an exact latitude: vertices exactly on a row edge), windows starting at tile (0,0) and whole-world windows at zooms 0..2. Model-checked layer for lines: the grid walk of tilecover.line() transcribed in exact arithmetic satisfies Must <= walk <= May for every segment between lattice points of a 3x3 window. Also: multipolygons whose members overlap or nest (the cover is the union), tilecover.Bound on the 1/8192 lattice with corners a hair away from tile edges at zooms to 22, MergeUp on a reused map still holding false-valued keys of another zoom, points at zooms 0..2.",
     level_note="Zero-length lines are outside the quantifier and accepted with any cover. The inverse mercator is written out in the harness (orb/internal cannot be imported) and guarded by the Fraction round-trip check; cases that miss are dropped, never judged. MergeUpPartial is not specified by the property and not checked. Trusted: TLC, Json module, the inverse projection + Fraction guard.",
     rule="one event = one real tilecover / MergeUp call; non-trivial = cover of more than one tile (lines, polygons) / all point, collection and merge events; distinct = distinct event text",
     assumptions=["edges are straight in tile space (the code interpolates in tile fractions)", "lattice points are reproduced by maptile.Fraction within 1e-6 tile (checked per point)"],
@@ -500,7 +500,7 @@ def run_c12(ctx):
 PLANS["C12"] = dict(
     run=run_c12, signature=sig_default,
     technique="TLA+ relations (subsequence, endpoints, exact rational error bound, spacing, counts, monotonicity) and transcriptions of the three simplifiers; TLC model-checks the transcriptions against the relations and validates traces of the real simplifier calls, with simplifier values reused across calls",
-    level_text="TLC checks for every path of <=5 (quick) / <=6 (thorough) vertices on a 3x3 grid and 5 thresholds that the Douglas-Peucker transcription (farthest vertex, strict >) keeps endpoints, stays within the threshold (exact rational point-segment distances), is idempotent and monotone, that the radial scan keeps the spacing, and that Visvalingam under every tie-break respects minimum counts, keep-N and monotonicity. Every path of <=4 (5) vertices on a 4x4 grid and seeded paths to 40 vertices (repeated, collinear, coincident-endpoint vertices), as lines and rings, through the typed and generic entry points, with dyadic thresholds, larger-threshold and second-application runs on REUSED simplifier values, are recorded; TLC evaluates the relations on each event. Polygons and multipolygons of 1..5 parts (parts that collapse, stay, or change, in every order) through Polygon / MultiPolygon / Simplify of all three simplifiers: the result must be the filter-map of the per-part results (spec MvtLayer), i.e. every ring is simplified and exactly the collapsed holes / polygons disappear.",
+    level_text="TLC checks for every path of <=5 (quick) / <=6 (thorough) vertices on a 3x3 grid and 5 thresholds that the Douglas-Peucker transcription (farthest vertex, strict >) keeps endpoints, stays within the threshold (exact rational point-segment distances), is idempotent and monotone, that the radial scan keeps the spacing, and that Visvalingam under every tie-break respects minimum counts, keep-N and monotonicity. Every path of <=4 (5) vertices on a 4x4 grid and seeded paths to 40 vertices (repeated, collinear, coincident-endpoint vertices), as lines and rings, through the typed and generic entry points, with dyadic thresholds, larger-threshold and second-application runs on REUSED simplifier values, are recorded; TLC evaluates the relations on each event. Polygons and multipolygons of 1..5 parts (parts that collapse, stay, or change, in every order) through Polygon / MultiPolygon / Simplify of all three simplifiers: the result must be the filter-map of the per-part results (spec MvtLayer), i.e. every ring is simplified and exactly the collapsed holes / polygons disappear. Damped zig-zags, spirals and growing zig-zags of 20..49 vertices (the recursion nests linearly); polygon parts that come out with exactly three vertices.",
     level_note="Thresholds are dyadic (a/4) so that t^2 and 2*area thresholds are exact rationals; a vertex at distance exactly t may be kept or dropped. Geodesic distance functions for Radial are not exercised. Trusted: TLC, Json module, integer projection of coordinates.",
     rule="one event = one simplifier call (input, parameters, output, second application, larger threshold); non-trivial = at least one vertex dropped; distinct = distinct event text",
     assumptions=["integer coordinates of magnitude <= 30 so that all squared distances and cross products fit 32 bits"],
@@ -546,7 +546,7 @@ def sig_c10(ev):
 PLANS["C10"] = dict(
     run=run_c10, signature=sig_c10,
     technique="TLA+ exact integer/rational definitions of shoelace area, moments/centroid, point-segment distance and bracketed length; TLC checks their laws on small rings and recomputes every recorded result of the real planar functions",
-    level_text="TLC checks on every ring of <=3 (quick) / <=4 (thorough) vertices of a 4x4 grid that the shoelace area negates under reversal and is invariant under rotation, translation and explicit closing, that the centroid is translation-covariant, rotation-invariant and inside the bound of a convex ring, and that the point-segment distance is zero exactly on the segment. For seeded integer geometries TLC recomputes: the doubled area of rings (with rotations, reversals, translations), polygons with holes of any winding, multipolygons and collections (top-dimensional members only); centroids as exact rationals (area-, length- and count-weighted); DistanceFromSegmentSquared; DistanceFrom / WithIndex as the minimum over all boundary segments of every kind incl. query points on the boundary; Length bracketed per segment by integer square roots. DistanceFromWithIndex on multipolygons, multi line strings, polygons and collections of 2..4 parts (query points inside a later part's box): the distance must be the minimum over all parts.",
+    level_text="TLC checks on every ring of <=3 (quick) / <=4 (thorough) vertices of a 4x4 grid that the shoelace area negates under reversal and is invariant under rotation, translation and explicit closing, that the centroid is translation-covariant, rotation-invariant and inside the bound of a convex ring, and that the point-segment distance is zero exactly on the segment. For seeded integer geometries TLC recomputes: the doubled area of rings (with rotations, reversals, translations), polygons with holes of any winding, multipolygons and collections (top-dimensional members only); centroids as exact rationals (area-, length- and count-weighted); DistanceFromSegmentSquared; DistanceFrom / WithIndex as the minimum over all boundary segments of every kind incl. query points on the boundary; Length bracketed per segment by integer square roots. DistanceFromWithIndex on multipolygons, multi line strings, polygons and collections of 2..4 parts (query points inside a later part's box): the distance must be the minimum over all parts. Query points strictly inside a bound; areas and centroids are measured on geometries carved out of one coordinate buffer after the other read-only measures have been taken on them.",
     level_note="Bounds forced by TLC's 32-bit integers: |v| <= 12 for area/centroid, <= 8 for distances (the property's |v| <= 2^20 range and the general-position 1e-9 clause are not covered). Centroids are compared after rounding to 1/1000, squared distances to 1/10000, lengths to 1/100. Trusted: TLC, Json module, the roundings in the harness.",
     rule="one event = one real planar call on an integer geometry; non-trivial = non-zero area (area events) / all other events; distinct = distinct event text",
     assumptions=["2*area of an integer geometry is exact in float64 (checked per event)"],
@@ -573,7 +573,7 @@ def sig_c16(ev):
 PLANS["C16"] = dict(
     run=run_c16, signature=sig_c16,
     technique="TLA+ region predicates (exact even-odd membership on a query lattice, ring shape/winding, open-path closure along the box outline) and the aroundBound corner tables; TLC model-checks the tables and validates traces of the real smartclip calls",
-    level_text="TLC checks the corner-walk tables of aroundBound (cyclic, inverse, terminating, adjacent, turning as requested). For triangles of a 4x4 (5x5) grid x boxes x both orientations, and seeded simple star-shaped rings of 3..12 vertices with vertices on box edges and corners, polygons with an interior hole, two-member multipolygons, through Ring/Polygon/MultiPolygon/Geometry, TLC requires: every output ring closed and inside the closed box, outers wound as requested and holes opposite (zero-area two-point rings from corner touches allowed), a region wholly inside returned unchanged, one wholly outside yielding nothing, and - whenever the input boundary meets the open box - q in output iff q in input for every quarter-step lattice point strictly inside the box and off all boundaries. Open sub-paths of such rings cut at the box are judged against the path closed along the box outline in the requested direction. Comb-shaped polygons (a spine outside the box, 2..3 teeth reaching in, so the outer ring is cut into several pieces) with half-unit holes inside the teeth, through Polygon, Geometry and MultiPolygon; unit-square holes anywhere on the grid.",
+    level_text="TLC checks the corner-walk tables of aroundBound (cyclic, inverse, terminating, adjacent, turning as requested). For triangles of a 4x4 (5x5) grid x boxes x both orientations, and seeded simple star-shaped rings of 3..12 vertices with vertices on box edges and corners, polygons with an interior hole, two-member multipolygons, through Ring/Polygon/MultiPolygon/Geometry, TLC requires: every output ring closed and inside the closed box, outers wound as requested and holes opposite (zero-area two-point rings from corner touches allowed), a region wholly inside returned unchanged, one wholly outside yielding nothing, and - whenever the input boundary meets the open box - q in output iff q in input for every quarter-step lattice point strictly inside the box and off all boundaries. Open sub-paths of such rings cut at the box are judged against the path closed along the box outline in the requested direction. Comb-shaped polygons (a spine outside the box, 2..3 teeth reaching in, so the outer ring is cut into several pieces) with half-unit holes inside the teeth, through Polygon, Geometry and MultiPolygon; unit-square holes anywhere on the grid. Crossing rings handed over without their closing vertex (closed implicitly when an endpoint is in the box), polygons passed as members of a Collection, holes whose first vertex is level with an odd number of outer-ring vertices, unclosed triangles in the exhaustive part.",
     level_note="Rings that surround the box or only touch it are outside the property's domain (the spec evaluates 'boundary meets the open box' itself). Inputs are simple by construction (strictly increasing exact angle about an interior point). Lattice 1/60, residual > 1e-7 = 'offlattice'. Trusted: TLC, Json module, lattice projection, clip.LineString(OpenBound) to cut the open sub-paths.",
     rule="one event = one real smartclip call; non-trivial = non-empty output different from the input; distinct = distinct event text",
     assumptions=["input rings are simple and correctly wound (constructed, not checked by the code)"],
@@ -612,7 +612,7 @@ def run_c02(ctx):
 PLANS["C02"] = dict(
     run=run_c02, signature=sig_default,
     technique="TLA+ abstract JSON documents (GeomDoc / FeatureDoc / FCDoc, RFC 7946 shape predicate, Norm); TLC checks the document model on a bounded shape set and validates the documents parsed out of the real JSON bytes and the values decoded back through JSON and BSON",
-    level_text="TLC checks on the 534-shape bounded set that the specified document of every geometry is well-formed RFC 7946 (type names the kind, coordinates nested exactly as deep as the kind requires, collections use geometries), that a ring or bound gives the polygon's document and an empty collection null. For seeded geometries (nine kinds, nested collections incl. empty ones, coordinates over the full finite float64 range), features (id absent / string / number, properties over null, bool, number, string, array, object, optional bbox) and feature collections with foreign members, the harness parses the produced JSON generically (encoding/json, numbers -> strconv -> bit id); TLC requires the document to equal the specified one exactly, the values decoded through UnmarshalGeometry / UnmarshalFeature / UnmarshalFeatureCollection and through BSON to equal the normal form of the input, and the re-marshalled JSON to be byte-identical. The same bytes are also decoded into Geometry / Feature / FeatureCollection values that already hold the results of earlier events (a decoding loop reusing one variable) and must give the same value; json.Marshal and a Geometry literal around the value must give the same bytes as MarshalJSON / bson.Marshal of NewGeometry; the bytes returned for the previous event must still be what they were.",
+    level_text="TLC checks on the 534-shape bounded set that the specified document of every geometry is well-formed RFC 7946 (type names the kind, coordinates nested exactly as deep as the kind requires, collections use geometries), that a ring or bound gives the polygon's document and an empty collection null. For seeded geometries (nine kinds, nested collections incl. empty ones, coordinates over the full finite float64 range), features (id absent / string / number, properties over null, bool, number, string, array, object, optional bbox) and feature collections with foreign members, the harness parses the produced JSON generically (encoding/json, numbers -> strconv -> bit id); TLC requires the document to equal the specified one exactly, the values decoded through UnmarshalGeometry / UnmarshalFeature / UnmarshalFeatureCollection and through BSON to equal the normal form of the input, and the re-marshalled JSON to be byte-identical. The same bytes are also decoded into Geometry / Feature / FeatureCollection values that already hold the results of earlier events (a decoding loop reusing one variable) and must give the same value; json.Marshal and a Geometry literal around the value must give the same bytes as MarshalJSON / bson.Marshal of NewGeometry; the bytes returned for the previous event must still be what they were. Integer feature ids, also beyond 2^53, must come back from BSON as the same integer (bsonid events).",
     level_note="That a decimal string denotes a float64 is decided by strconv + bit interning in the harness. Geometries containing nil slices marshal to \"coordinates\": null and are not generated (the quantifier does not name them); a bare top-level empty collection is not a geometry document and is only exercised inside features. Foreign members named exactly type / bbox / features are excluded by the quantifier (other spellings such as Type, Features are generated). The six helper types are exercised in C05. Trusted: TLC, Json module, encoding/json and bson as lenses on the bytes, strconv.",
     rule="one event = one geometry / feature / feature collection with its JSON document and both decoded values; all events non-trivial; distinct = distinct event text",
     assumptions=["encoding/json (UseNumber) and go.mongodb.org bson read the produced bytes faithfully"],
